@@ -95,3 +95,45 @@ impl RegionsGuard {
                 r is Ok ==> *final(w) == (RNW { ids: old(w).ids.remove(old_id.bytes()).insert(new_id.bytes(), old(w).ids[old_id.bytes()]), ..*old(w) })
     { unimplemented!() }
 }
+
+// ---- Regions::fill (reopen): the metadata file as a ghost sequence of decoded slots ----
+pub tracked struct FillW {
+    pub ghost slots: Seq<Option<Seq<u8>>>,    // per 4096-byte slot of the metadata file: Some(id) when RegionMetadata::from_bytes accepts it (U2), None otherwise
+    pub ghost file_len: nat,
+    pub ghost stat_ok: bool,                  // whether File::metadata() succeeds (an I/O error is the only other way open can fail here)
+}
+impl Regions {
+    #[verifier::external_body] pub fn file_len(&self, Tracked(w): Tracked<&mut FillW>) -> (r: Result<usize>) ensures *final(w) == *old(w), r is Ok <==> old(w).stat_ok, r matches Ok(n) ==> n == old(w).file_len { unimplemented!() }
+}
+impl MmapT {
+    // &self.mmap[start..start + SIZE_OF_REGION_METADATA]: slot `start / 4096` of the metadata file
+    #[verifier::external_body]
+    pub fn slot(&self, start: usize, end: usize, Tracked(w): Tracked<&mut FillW>) -> (r: &[u8])
+        requires start % 4096 == 0, end == start + 4096, end <= old(w).file_len
+        ensures *final(w) == *old(w), r@.len() == 4096, slot_tag(r@) == Some((start / 4096) as nat)
+    { unimplemented!() }
+}
+pub uninterp spec fn slot_tag(b: Seq<u8>) -> Option<nat>;      // which slot of the file these bytes are
+#[verifier::external_body] pub struct RegionMetadataT { _p: core::marker::PhantomData<u8> }
+impl RegionMetadataT {
+    pub uninterp spec fn id_v(&self) -> Seq<u8>;
+    // RegionMetadata::from_bytes (U2): Ok exactly for a valid slot; the id is the slot's id
+    #[verifier::external_body]
+    pub fn from_bytes(bytes: &[u8], Tracked(w): Tracked<&mut FillW>) -> (r: Result<RegionMetadataT>)
+        requires slot_tag(bytes@) is Some, slot_tag(bytes@)->Some_0 < old(w).slots.len()
+        ensures *final(w) == *old(w), r is Ok <==> old(w).slots[slot_tag(bytes@)->Some_0 as int] is Some,
+                r matches Ok(m) ==> Some(m.id_v()) == old(w).slots[slot_tag(bytes@)->Some_0 as int]
+    { unimplemented!() }
+    #[verifier::external_body] pub fn id(&self) -> (r: &StrH) ensures r.bytes() == self.id_v() { unimplemented!() }
+}
+impl RegionT {
+    // Region::from(db, index, meta)
+    #[verifier::external_body]
+    pub fn from(db: &DatabaseT, index: usize, meta: RegionMetadataT) -> (r: RegionT) ensures r.idx() == index, r.rid() == meta.id_v() { unimplemented!() }
+}
+// index_to_region.resize_with(n, Default::default)
+#[verifier::external_body]
+pub fn resize_none(v: &mut Vec<Option<RegionT>>, n: usize)
+    requires old(v)@.len() == 0
+    ensures final(v)@.len() == n, forall|i: int| 0 <= i < n ==> final(v)@[i] is None
+{ unimplemented!() }
